@@ -17,12 +17,14 @@ type Tap struct {
 	Chunks []TapChunk
 	Bytes  int
 	Max    int
+	now    func() time.Duration
 }
 
 type TapChunk struct {
 	Conn int
 	Side int // 0: dialer -> listener, 1: listener -> dialer
 	Data []byte
+	At   time.Duration // instant of the write
 }
 
 func (t *Tap) record(id, side int, b []byte) {
@@ -31,7 +33,7 @@ func (t *Tap) record(id, side int, b []byte) {
 	}
 	cp := make([]byte, len(b))
 	copy(cp, b)
-	t.Chunks = append(t.Chunks, TapChunk{id, side, cp})
+	t.Chunks = append(t.Chunks, TapChunk{id, side, cp, t.now()})
 	t.Bytes += len(b)
 }
 
@@ -63,7 +65,7 @@ func (t *Tap) Conns() []int {
 func (n *Net) TapListener(addr string, max int) *Tap {
 	n.mu.Lock()
 	defer n.mu.Unlock()
-	t := &Tap{Max: max}
+	t := &Tap{Max: max, now: n.Now}
 	n.taps[addr] = t
 	return t
 }
